@@ -56,7 +56,7 @@ def track_case(rng, items=None):
             elif k == "S":
                 items.append(["S", t, rng.choice([0, 0, 1, 96, 1000])])
             else:
-                items.append(["E", t, rng.choice(["solo", "soloend", "x=1", "a\"b", "歌", ""])])
+                items.append(["E", t, rng.choice(["solo", "soloend", "x=1", "a\"b", "歌", "", '"solo"', '"section"', '"x"', "{x}", "a}b", "%s", "{0}"])])
     lines = []
     for it in items:
         if it[0] == "N":
@@ -69,7 +69,10 @@ def track_case(rng, items=None):
             from . import instr_gen as ig
             l = ig.exotic_line(rng, l)
         lines.append(l)
-    text = chart_text(tracks=[("ExpertSingle", lines)])
+    # the [Events] section of the same chart holds, character for character, the E lines of the track whose word is a quoted token
+    # (there a text event, here a track event): what a line is depends on the section it stands in
+    events = [l for l, it in zip(lines, items) if it[0] == "E" and len(it[2]) >= 2 and it[2][0] == '"' and it[2][-1] == '"']
+    text = chart_text(events=events, tracks=[("ExpertSingle", lines)])
     ch, exc, out = parse_case(text)
     nl = coq_list("(%s, %s)" % (coq_Z(i[1]), coq_Z(i[2])) for i in items if i[0] == "N")
     sl = coq_list("(%s, %s)" % (coq_Z(i[1]), coq_Z(i[2])) for i in items if i[0] == "S")
@@ -95,7 +98,9 @@ def run(ctx, only=None):
 
 def search(ctx, result):
     cs = [lg.dec_case(k, w, ["regex_diff_witness"]) for w in regex_witnesses() for k in KS] + cases(ctx, 12000)
-    r = run_cases("C07s", cs, lg.DEC_IN, lg.DEC_OUT, lg.DEC_VERDICT, lg.DEC_SPEC, shard_size=400)
+    rng = ctx["rng"]
+    r = merge([run_cases("C07s", cs, lg.DEC_IN, lg.DEC_OUT, lg.DEC_VERDICT, lg.DEC_SPEC, shard_size=400),
+               run_cases("C07ts", [track_case(rng) for _ in range(400)], T_IN, PARSE_OUT, T_VERDICT, T_SPEC, shard_size=20)])
     return dict(viol=r["viol"], evaluations=r["evaluations"], note="re-sampled %d cases" % len(cs))
 
 
